@@ -67,7 +67,8 @@ func caseTagCompiler(node render.BlockNode) (func(io.Writer, render.Context) err
 		for _, clause := range cases {
 			b, err := clause.test(sel, ctx)
 			if err != nil {
-				return err
+				// locate the error at the when clause, not at the enclosing case tag
+				return parser.WrapError(err, clause.body())
 			}
 			if b {
 				return ctx.RenderBlock(w, clause.body())
@@ -112,7 +113,9 @@ func ifTagCompiler(polarity bool) func(render.BlockNode) (func(io.Writer, render
 			for _, b := range branches {
 				value, err := ctx.Evaluate(b.test)
 				if err != nil {
-					return err
+					// locate the error at the tag of this branch (the if/unless tag or the
+					// elsif clause), not always at the enclosing if tag
+					return parser.WrapError(err, b.body)
 				}
 				if value != nil && value != false {
 					return ctx.RenderBlock(w, b.body)
